@@ -66,3 +66,8 @@ claim('C04', 'finite-domain interpretation of in-place kernels against matrices 
       'C04.b _apply_unitary_ of 12 table-defined families == their matrix for probe exponents/shifts on every basis state, give-up leaves target untouched; C04.b2 kernel return discipline; '
       'C04.a has-X / X guard coherence; C04.d wrappers read the wrapped object in each protocol method and forward every parameter when delegating',
       'decomposition/Kraus/mixture/superoperator agreement, act_on for each simulator, kernels of parameter-dependent gates and ControlledGate')
+claim('C19', 'finite probe interpretation of _qasm_ methods (my AST evaluator) with the emitted text read by a qelib1/stdgates reference held in the checker, compared with the extracted gate matrix; vocabulary/arity table agreement; ordering rules',
+      'C19.a emitted QASM of 14 table-defined gate families (+Rx/Ry/Rz, controlled X/Y/Z/H) == the gate matrix up to global phase for probe and source-derived exponents; '
+      'C19.b every mnemonic exists with that parameter/operand count, operands distinct, angles as half turns; C19.c version validated before formatting, writer never drops an operation, '
+      'measurement inversion lines symmetric',
+      'QasmUGate/QasmTwoQubitGate fallback numerics, register layout and bit order, classical conditions, printed precision')
